@@ -14,10 +14,11 @@ import (
 
 // Run generates the C13 cases.
 func Run(r *hk.Run) {
-	r.Res.Rule = "a case = one random storage tree (depth ≤ 3; inner namespace, proxycache[max] over memcache[max] or a store, overlay, shard and replica over 2, 3 or 4 sub-stores, cond; leaves memory, some localdisk/diskpacked) whose EVERY leaf sits behind a fault wrapper with its own call schedule (call i of that leaf: none / fails before any effect / takes effect but answers an error), and a history of single-key receive/fetch/stat/remove and enumerate; thorough: for a history, one case per (leaf, call index the healthy run makes, failure kind) = single faults exhaustively, plus random bursts; every op under a watchdog. Oracle: three-valued reference map (a failed receive/remove leaves its key undetermined until the next successful read resolves it); an error answer needs an injected failure, every other answer must be exact for some resolution, and once all schedules are exhausted the store must answer exactly like the reference map. Below the Storage interface (sweep.go, child processes): for the files store over a recording VFS and for diskpacked over a recording index KeyValue, every lower-layer call (counted from the call log of a healthy run) of receive-new / re-receive of an acknowledged blob / remove / remove-absent / fetch / stat / enumerate fails once in each of its modes (no effect; effect but error answer), on a store holding acknowledged blobs; after each: answer is an error or exact, every acknowledged unremoved blob is fetched back intact and stat'ed, the op's own blob is absent or intact, enumerate lists exactly what can be fetched, a healthy retry succeeds and leaves the exact state, diskpacked re-indexes. Generator restrictions that keep per-leaf call numbers deterministic (the model has no scheduler): trees with an overlay below a merging node (shard/replica/cond/overlay) enumerate only in the quiet phase and with an unreachable limit; no replica/cond below a proxycache origin; trees with replica/cond have memory leaves only; after every op the harness waits until the goroutines the op started have ended. distinct_nontrivial = distinct (tree shape, schedule pattern) pairs in which at least one failure was injected and the quiet continuation was reached"
+	r.Res.Rule = "a case = one random storage tree (depth ≤ 3; inner namespace, proxycache[max] over memcache[max] or a store, overlay, shard and replica over 2, 3 or 4 sub-stores, cond; leaves memory, some localdisk/diskpacked) whose EVERY leaf sits behind a fault wrapper with its own call schedule (call i of that leaf: none / fails before any effect / takes effect but answers an error), and a history of single-key receive/fetch/stat/remove and enumerate; thorough: for a history, one case per (leaf, call index the healthy run makes, failure kind) = single faults exhaustively, plus random bursts; every op under a watchdog. Oracle: three-valued reference map (a failed receive/remove leaves its key undetermined until the next successful read resolves it); an error answer needs an injected failure, every other answer must be exact for some resolution, and once all schedules are exhausted the store must answer exactly like the reference map. Below the Storage interface (sweep.go, child processes): for the files store over a recording VFS and for diskpacked over a recording index KeyValue, every lower-layer call (counted from the call log of a healthy run) of receive-new / re-receive of an acknowledged blob / remove / remove-absent / fetch / stat / enumerate fails once in each of its modes (no effect; effect but error answer), on a store holding acknowledged blobs; after each: answer is an error or exact, every acknowledged unremoved blob is fetched back intact and stat'ed, the op's own blob is absent or intact, enumerate lists exactly what can be fetched, a healthy retry succeeds and leaves the exact state, diskpacked re-indexes. Encrypt programs (encrypt.go): one encrypt storage over a wrapped META and a wrapped BLOBS memory store, 215 receives (meta compaction starts in the background when the heap of small meta blobs exceeds 100 entries: twice per program; the harness waits after every operation until the goroutine is gone), failures at the k-th call / k-th ReceiveBlob / k-th RemoveBlobs of either store - each call of the background compaction (packed upload, removal of the small meta blobs) in both modes, and random bursts over all calls -, live reads of acknowledged blobs, then, failures stopped, a FRESH encrypt storage with an empty meta index over the same two stores must fetch every acknowledged blob bit-identically, enumerate it with its size, and accept a new blob. Generator restrictions that keep per-leaf call numbers deterministic (the model has no scheduler): trees with an overlay below a merging node (shard/replica/cond/overlay) enumerate only in the quiet phase and with an unreachable limit; no replica/cond below a proxycache origin; trees with replica/cond have memory leaves only; after every op the harness waits until the goroutines the op started have ended. distinct_nontrivial = distinct (tree shape, schedule pattern) pairs in which at least one failure was injected and the quiet continuation was reached"
 	genCases(r)
 	mechanisms(r)
 	sweeps(r)
+	encryptPrograms(r)
 	probes(r)
 }
 
